@@ -701,6 +701,10 @@ class _Boom(Exception):
     pass
 
 
+class _BaseBoom(BaseException):
+    """a scope is also left by exceptions that are no Exception (KeyboardInterrupt, SystemExit)"""
+
+
 def indented(lines, n):
     return "\n".join((" " * n + l) if l else l for l in lines)
 
@@ -802,10 +806,12 @@ def indent_case(mode, scopes):
                 probe("inside-after-inner:%d" % level)
                 if exit_ == "exception":
                     raise _Boom()
+                if exit_ == "base-exception":
+                    raise _BaseBoom()
             after_with_reached = True
-        except _Boom:
+        except (_Boom, _BaseBoom):
             pass
-        if exit_ == "exception" and after_with_reached:
+        if exit_ in ("exception", "base-exception") and after_with_reached:
             fails.append(("indent_scopes|scope-swallows-exception", "the exception raised inside %s(%d) did not propagate" % (kind, width)))
         model.clear()
         model.update(saved)
@@ -819,13 +825,13 @@ def indent_case(mode, scopes):
 def _bounded_indent(ctx):
     exh_widths = (0, 1, 3)
     smp_widths = (0, 1, 2, 5, 8)
-    exh_level = [(k, w, e) for k in SCOPE_KINDS for w in exh_widths for e in ("normal", "exception")]
-    smp_level = [(k, w, e) for k in SCOPE_KINDS for w in smp_widths for e in ("normal", "exception")]
+    exh_level = [(k, w, e) for k in SCOPE_KINDS for w in exh_widths for e in ("normal", "exception", "base-exception")]
+    smp_level = [(k, w, e) for k in SCOPE_KINDS for w in smp_widths for e in ("normal", "exception", "base-exception")]
     max_exh = 2 if ctx.quick else 4
     n_sample = 3000 if ctx.quick else 20000
     ctx.check("indent_scopes",
               "scope = kind in {io.indent, io.increment_indent, output.indent, output.increment_indent} x width x exit in "
-              "{normal, exception}; all nestings of depth 1..%d with widths %r exhaustively (%d scopes per level), plus %d seeded "
+              "{normal, exception, an exception that is no Exception}; all nestings of depth 1..%d with widths %r exhaustively (%d scopes per level), plus %d seeded "
               "nestings of depth 2..4 with widths %r; each x {ANSI forced, plain}; at every level before / inside / after the "
               "inner scope / after exit: IO.write_line, IO.write, Output.write_line, IO.error_line, IO.error and a freshly "
               "created section write a 3-line text (tagged line, empty line, line with own leading blanks), IO.write_line and "
